@@ -29,6 +29,7 @@ from rich.panel import Panel
 from rich.text import Text
 from rich.tree import Tree
 from z3 import (
+    UGE,
     BitVec,
     BoolRef,
     Solver,
@@ -727,7 +728,10 @@ def _compute_frontier(ctx: ContractContext, depth: int) -> Iterator[Exec]:
                 # update timestamp
                 timestamp_name = f"halmos_block_timestamp_depth{depth}_{uid()}"
                 post_ex.block.timestamp = ZeroExt(192, BitVec(timestamp_name, 64))
-                post_ex.path.append(post_ex.block.timestamp >= pre_ex.block.timestamp)
+                # note: `>=` on z3 bitvectors is the signed comparison
+                post_ex.path.append(
+                    UGE(post_ex.block.timestamp, pre_ex.block.timestamp)
+                )
 
                 # update the frontier states cache and yield the new frontier state
                 next_exs.append(post_ex)
